@@ -6,6 +6,41 @@ on a freshly loaded database) and compares every cell of a high-precision USER_P
     intensive quantities equal to relative 1e-8, extensive quantities equal to factor x reference (relative 1e-8).
 The only "expected values" are the numbers written into the transformed input by the unit oracle
 (value = mol/kgw / prefix x gram formula weight, weights parsed from the database text by mc/oracles/c15_gfw.py).
+
+Families (each enumerated completely over its stated value sets, per base input):
+  units      default unit of the block x {mol,mmol,umol,g,mg,ug}/{kgw,L,kgs} (+ppt/ppm/ppb), one element in its own unit,
+             `as` formulas, `gfw` overrides, eq/meq/ueq for Alkalinity, every element in its own unit (cyclic assignments);
+             per litre with no / a fixed / a calculated density
+  water      water mass and every extensive amount x f (extensive cells must scale by f)
+  renumber   all injective maps of the used numbers into a target set, all kinds together and one kind alone
+  permb/permc  all permutations of the blocks of a simulation / of the constituents of a block (up to 4 (quick) / 6)
+  dup        an identical definition repeated (adjacent, at the end, at the start, in a simulation of its own)
+  spread     SOLUTION_SPREAD rows (one block per solution / one joint block) instead of SOLUTION blocks, with unit variants
+  mix        MIX: order inside the block (permc), self-mix (fraction f; f + (1-f) of an identical copy), sequential mixing,
+             and "mixwater": one solution defined with water mass f and mixed with fraction/f
+
+Sub-claims that are NOT judged (they only produce diagnostics) and why:
+  REDOX    Dissolved O2 of a *reacted* solution (TOT/TOTMOLE("O(0)"), MOL("O2"), SI/SR/GAS/PR_P of O2(g); kind 'r' in
+           c15_bases) under transformations that change the iteration path (water scaling, sequential/self mixing).  The
+           engine has no mole balance for O(0) in a reaction step: it follows from the difference of the total-H and
+           total-O balances, whose documented convergence criterion is relative to the moles of H and O (111 + 55.5 per
+           kg water).  With the tightest tolerance (-high_precision => convergence_tolerance 1e-12; 1e-14 no longer
+           converges) O(0) = 3e-4 mol/kgw is resolved to 1e-12 x 166 / 3e-4 = 5e-7 relative only; observed 1.1e-7.  The
+           statement's 1e-8 cannot be demanded below the solver's resolution; every other quantity of those runs is judged.
+  MIXTEMP  Sequential mixing ((a+b) saved, then +c) of solutions of *different temperature*.  The temperature of a mixture
+           is the water-mass-weighted mean (manual, MIX); the saved intermediate has gained/lost ~1e-7 kg of water by
+           reaction, so the final temperature legitimately differs by ~3e-8.  Sequential mixing is judged on the
+           isothermal base (mixiso); the order *inside* one MIX block is judged at all temperatures (family permc).
+  LINES    Rotations of all body lines of a SOLUTION block (options mixed with constituents): options are not
+           "constituents" in the statement.  (No deviation is observed; diagnostics only by rule R1.)
+  per-litre / per-kg-solution descriptions are compared only inside one denominator family with one density keyword.
+
+Genuine deviations found on the unchanged tree (reported to the coordinator; their fingerprints are narrow):
+  * `units den=kgs per-element Alkalinity:eq/kgs` - prep.cpp convert_units adds the solute mass of a constituent given in
+    Mol/kgs, Mol/l, eq/l, g/kgs, g/l to the solution mass but not of one given in eq/kgs.
+  * `water-scale fixed-volume-gas reported-pressure maxdev<1e-7` - GAS_P / PR_P of a fixed-volume Peng-Robinson gas phase
+    are not part of the convergence test (only to 1e-3 atm): the reported pressure misses the equation of state at the
+    reported moles by a remainder that halves per iteration (2.6e-8 at water 1e-3 kg, 8e-10 at 1e3 kg).
 """
 import itertools
 import json
@@ -208,6 +243,9 @@ def build_pair(case):
             info["mode"] = "skip_sim"
             info["skip"] = case["sim"]
     elif fam == "spread":
+        if case.get("water") is not None:       # the same scaled system on both sides: -water f  vs  the water column
+            scale_model(ref, case["water"])
+            scale_model(var, case["water"])
         to_spread(var, case["mode"])
     elif fam == "mixseq":
         # ((a,b) saved as 4, then 4 + c) instead of one MIX of a, b, c
@@ -219,6 +257,16 @@ def build_pair(case):
         info["mode"] = "lastrow"
         info["path_changes"] = True
         info["diag_only"] = case["base"] != "mixiso"     # see MIXTEMP note
+    elif fam == "mixwater":
+        # solution k is defined with water mass f (same molalities) and enters the MIX with its fraction divided by f:
+        # the same water and solutes enter the mixture
+        k, f = case["sol"], case["f"]
+        for _, _, b in blocks_of(var, "SOLUTION"):
+            if b["n"] == k:
+                b["water"] = b.get("water", 1.0) * f
+        (i, j, mix), = blocks_of(var, "MIX")
+        mix["items"] = [(s_, fr / f if s_ == k else fr) for s_, fr in mix["items"]]
+        info["mode"] = "lastrow"
     elif fam == "selfmix":
         # reference: MIX of solution 1 alone with fraction 1
         for model in (ref, var):
@@ -356,7 +404,9 @@ def compare(base, ref, var, info):
 
 def obs_group(h):
     """Which part of the system an observable belongs to (used to keep water-scale fingerprints narrow)."""
-    if h.startswith(("g_", "p_", "gas_")):
+    if h.startswith("p_") or h == "gas_p":
+        return "gas-pressure"
+    if h.startswith(("g_", "gas_")):
         return "gas"
     if h.startswith(("k_", "kd_")):
         return "kinetics"
@@ -377,7 +427,9 @@ def unit_class(el, d):
         if el.lower().startswith("alk") and base == "mol":
             base = "eq"
         t += base + "/" + den
-    return t + (" as" if d.get("as") else "") + (" gfw" if d.get("gfw") is not None else "")
+    # the `as` formula is named for Alkalinity only (documented special case: as CaCO3 = equivalent weight)
+    a = (" as=%s" % d["as"] if el.lower().startswith("alk") else " as") if d.get("as") else ""
+    return t + a + (" gfw" if d.get("gfw") is not None else "")
 
 
 def fingerprint(case):
@@ -410,11 +462,14 @@ def fingerprint(case):
     if fam == "dup":
         return "duplicate-definition block=%s where=%s base=%s" % (bases()[b]["sims"][case["sim"]][case["blk"]]["k"], case["where"], b)
     if fam == "spread":
-        return "solution-spread mode=%s base=%s" % (case["mode"], b)
+        # reading the spreadsheet happens before any chemistry: the mechanism does not depend on the base input
+        return "solution-spread mode=%s%s" % (case["mode"], " water-column" if case.get("water") is not None else "")
     if fam == "mixseq":
         return "mix-sequential base=%s" % b
     if fam == "selfmix":
         return "self-mix how=%s base=%s" % (case["how"], b)
+    if fam == "mixwater":
+        return "mix water-mass-vs-fraction base=%s" % b
     return "%s base=%s" % (fam, b)
 
 
@@ -457,7 +512,14 @@ def run_case(case):
                 # part of the system that deviates + size class of the deviation: a wrong factor gives deviations far
                 # above 1e-7, the fixed-volume-gas finding (see report) stays below
                 dev = max(abs(t[2] * (info["factor"] if t[4][0] == "x" else 1.0) - t[3]) / max(abs(t[3]), 1e-300) for t in bad)
-                fp += " failing=%s maxdev%s" % ("+".join(sorted(set(obs_group(t[0]) for t in bad))), "<1e-7" if dev < 1e-7 else ">=1e-7")
+                groups = sorted(set(obs_group(t[0]) for t in bad))
+                size = "<1e-7" if dev < 1e-7 else ">=1e-7"
+                fixed_volume_gas = any(b["k"] == "GAS_PHASE" and b["kind"] == "fixed_volume" for sim in base["sims"] for b in sim)
+                if groups == ["gas-pressure"] and fixed_volume_gas and dev < 1e-7:
+                    # one demonstrated mechanism (module docstring): the same line whatever the base input
+                    fp = "water-scale fixed-volume-gas reported-pressure maxdev<1e-7"
+                else:
+                    fp += " failing=%s maxdev%s" % ("+".join(groups), size)
         if what and case["fam"] == "units" and len(case.get("per", {})) > 1 and not case.get("_sub"):
             # several elements carry their own unit: name the single description that fails on its own, if one does
             for el in sorted(case["per"]):
@@ -478,9 +540,12 @@ def run_case(case):
     outcome = core.sha(repr([[("%.5e" % v) if isinstance(v, float) else v for v in r.values()] for r in rows]) + str(var["rc"]))
     sample = {"case": case, "rc": [ref["rc"], var["rc"]], "rows": len(rows),
               "last_row": {k: rows[-1][k] for k in list(rows[-1])[:9]} if rows else None,
-              "equivalent_input": var_t[var_t.index("USER_PUNCH"):][-700:]}
-    return {"case": case, "problems": problems, "ops": ops, "states": [core.sha(var_t)], "outcome": outcome,
-            "not_completed": not_completed, "sample": sample, "script": ref["script"] + var["script"], "diagnostics": diags}
+              "reference_input": ref_t[len(head):][:900], "equivalent_input": var_t[len(head):][:900]}
+    res = {"case": case, "problems": problems, "ops": ops, "states": [core.sha(var_t)], "outcome": outcome,
+           "not_completed": not_completed, "script": ref["script"] + var["script"], "diagnostics": diags}
+    if case.get("_sample"):
+        res["sample"] = sample
+    return res
 
 
 # ------------------------------------------------------------------------------------------------ enumeration
@@ -612,6 +677,8 @@ def spread_cases(name, base, tier):
     out = []
     for mode in ("each", "joint"):
         out.append({"base": name, "fam": "spread", "mode": mode})
+        for f in ([.5] if tier == "quick" else [1e-3, .5, 3.0, 1e3]):
+            out.append({"base": name, "fam": "spread", "mode": mode, "water": f})
         for u in UNITS_KGW:
             out.append({"base": name, "fam": "units", "sol": "all", "den": "kgw", "default": u, "spread": mode})
         # per-element descriptions in the units line of the spreadsheet
@@ -642,6 +709,9 @@ def mix_cases(name, base, tier):
     fr = [.5, 2.0, .1] if tier == "quick" else [1e-3, .1, .25, .5, .75, 2.0, 10.0, 1e3]
     for f in fr:
         out.append({"base": name, "fam": "selfmix", "how": "fraction", "f": f})
+    for f in ([.5, 2.0, 10.0] if tier == "quick" else [1e-3, .1, .25, .5, 2.0, 3.0, 10.0, 1e3]):
+        for k in (1, 2, 3):
+            out.append({"base": name, "fam": "mixwater", "sol": k, "f": f})
     fr2 = [.5, .3] if tier == "quick" else [.01, .1, .25, .3, .5, .75, .9, .99]
     for how in ("copyblock", "copykeyword"):
         for f in fr2:
@@ -662,6 +732,13 @@ def cases(tier):
         for name, base in bases().items():
             cs += gen(name, base, tier)
         out[fname] = cs
+    # evidence samples: one explored case verbatim from six different families (the flag has no other effect)
+    for fname, pick in (("units", 200), ("water", 30), ("renumber", 5), ("permutations", 40), ("solution_spread", 3), ("mix", 20)):
+        if out.get(fname):
+            i = min(pick, len(out[fname]) - 1)
+            while i + 1 < len(out[fname]) and out[fname][i]["fam"] == "permlines":      # (diagnostics-only sub-family)
+                i += 1
+            out[fname][i] = dict(out[fname][i], _sample=True)
     return out
 
 
@@ -680,9 +757,17 @@ def run(tier):
         "each description is run on a freshly loaded database; identical input text is run once per worker process and reused (determinism: C06)",
         "kinetic integration tolerance (-tol, moles) is an extensive amount and is scaled with the system",
         "rows are matched by (simulation, state, step, solution number mapped back through the renumbering)",
+        "all runs use SELECTED_OUTPUT -high_precision, which (manual) sets the solver's convergence_tolerance to 1e-12, the tightest "
+        "setting that converges on all bases (1e-14 does not); results are compared at that solver setting",
+        "taken from the implementation (model.cpp residuals, step.cpp add_mix), used only to justify the two documented non-claims REDOX and "
+        "MIXTEMP, never to compute an expected value: the H/O balance residual is tested relative to the moles of H and O; the "
+        "temperature of a mixture is the water-mass-weighted mean of its parts",
+        "no numeric constant is taken from the engine source",
     ]
     pool = core.Pool()
-    dl = core.Deadline(170 if tier == "quick" else 1700)
+    # hard deadlines (the tiers need ~15 s / ~1 min on 16 workers): a tier that is cut stops before the next family,
+    # marks the cut and all later families as not completed => exhaustive:false, exit code from the completed part
+    dl = core.Deadline(150 if tier == "quick" else 780)
     allc = cases(tier)
     done = True
     total = 0
@@ -696,7 +781,10 @@ def run(tier):
             ev.bound("family %s: %d paired runs" % (fname, len(cs)), False, cases=len(cs))
     pool.close()
     ev.extra["lattice_points"] = total
+    ev.extra["lattice_points_per_family"] = {f: len(allc[f]) for f, _ in FAMILIES}
+    ev.extra["paired_runs_executed"] = ev.traces
     ev.extra["completed_runs"] = ev.traces - ev.not_completed
+    ev.extra["not_completed_runs"] = ev.not_completed
     ev.extra["bases"] = {n: b["kinds"] for n, b in bases().items()}
     ev.extra["tolerance"] = {"relative": TOL, "zero": TINY}
     # vacuity guards
